@@ -1,0 +1,29 @@
+//go:build verif
+
+package uu
+
+// Verification hooks (build tag "verif" only). VerifHook is nil unless a conformance harness
+// installs a tracer; the library never sets it.
+//
+//	kind 1: the generator lock was acquired (emitted inside the critical section)
+//	kind 2: the generator lock is about to be released (emitted inside the critical section)
+//	kind 3: RandomID received the two draws a and b
+var VerifHook func(kind int, a, b uint64)
+
+func verifEnter() {
+	if h := VerifHook; h != nil {
+		h(1, 0, 0)
+	}
+}
+
+func verifExit() {
+	if h := VerifHook; h != nil {
+		h(2, 0, 0)
+	}
+}
+
+func verifDrawn(a, b uint64) {
+	if h := VerifHook; h != nil {
+		h(3, a, b)
+	}
+}
